@@ -138,6 +138,24 @@ func main() {
 		wiretok.Pair("VotesWithLockTime", P, "VotesWithLockTime", "Serialize", "Deserialize"),
 		wiretok.Pair("RenewalVotesContent", P, "RenewalVotesContent", "Serialize", "Deserialize"),
 		wiretok.Pair("CRCProposalReview", P, "CRCProposalReview", "Serialize", "Deserialize"),
+		wiretok.Pair("Record", P, "Record", "Serialize", "Deserialize"),
+		wiretok.Pair("SideChainPow", P, "SideChainPow", "Serialize", "Deserialize"),
+		wiretok.Pair("ProcessProducer", P, "ProcessProducer", "Serialize", "Deserialize"),
+		wiretok.Pair("ReturnDepositCoin", P, "ReturnDepositCoin", "Serialize", "Deserialize"),
+		wiretok.Pair("ActivateProducer", P, "ActivateProducer", "Serialize", "Deserialize"),
+		wiretok.Pair("UpdateVersion", P, "UpdateVersion", "Serialize", "Deserialize"),
+		wiretok.Pair("CRCAppropriation", P, "CRCAppropriation", "Serialize", "Deserialize"),
+		wiretok.Pair("CRCProposalWithdraw", P, "CRCProposalWithdraw", "Serialize", "Deserialize"),
+		wiretok.Pair("CRCProposalRealWithdraw", P, "CRCProposalRealWithdraw", "Serialize", "Deserialize"),
+		wiretok.Pair("CRAssetsRectify", P, "CRAssetsRectify", "Serialize", "Deserialize"),
+		wiretok.Pair("CRCouncilMemberClaimNode", P, "CRCouncilMemberClaimNode", "Serialize", "Deserialize"),
+		wiretok.Pair("RevertToPOW", P, "RevertToPOW", "Serialize", "Deserialize"),
+		wiretok.Pair("RevertToDPOS", P, "RevertToDPOS", "Serialize", "Deserialize"),
+		wiretok.Pair("DPoSV2ClaimReward", P, "DPoSV2ClaimReward", "Serialize", "Deserialize"),
+		wiretok.Pair("DposV2ClaimRewardRealWithdraw", P, "DposV2ClaimRewardRealWithdraw", "Serialize", "Deserialize"),
+		wiretok.Pair("ExchangeVotes", P, "ExchangeVotes", "Serialize", "Deserialize"),
+		wiretok.Pair("ReturnVotes", P, "ReturnVotes", "Serialize", "Deserialize"),
+		wiretok.Pair("RecordSponsor", P, "RecordSponsor", "Serialize", "Deserialize"),
 		wiretok.Pair("DPOSProposal", P, "DPOSProposal", "Serialize", "Deserialize"),
 		wiretok.Pair("DPOSProposalVote", P, "DPOSProposalVote", "Serialize", "Deserialize"),
 		wiretok.Pair("Confirm", P, "Confirm", "Serialize", "Deserialize"),
